@@ -102,6 +102,16 @@ class Engine(BaseEngine):
         for t in (b'[["a\xf0"],["]]"]]', b'[["a\xe2"],["]"]]', b'[["\xc3"],["]]"]]', b'[["a\xf0"],["]],"]]'):
             out.append(("tags-desync", "tagsjson %s n:400 n:170" % C.tb(t)))
             out.append(("ev-desync", "evjson %s n:4096 n:170" % C.tb(mini_ev(t))))
+        # tag sections straddling the 65535-byte limit of the binary format (one long string / the last tag crossing / many tags)
+        def jt(ts):
+            return (b"[" + b",".join(b"[" + b",".join(b'"' + x + b'"' for x in t) + b"]" for t in ts) + b"]")
+        for ts in ([[b"r", b"a" * 65536]], [[b"r", b"a" * 65523]], [[b"r", b"a" * 65522]],
+                   [[b"a", b"x" * 40000], [b"b", b"y" * 30000]], [[b"a", b"x" * 65000], [b"b", b"y" * 600]],
+                   [[b"k", b"v" * 50] for _ in range(1100)], [[b"a", b"x" * 30000, b"y" * 30000, b"z" * 6000]]):
+            t = jt(ts)
+            sfx = "-many" if len(ts) > 100 else ""
+            out.append(("tags-overflow" + sfx, "tagsjson %s n:80000 n:170" % C.tb(t)))
+            out.append(("ev-overflow" + sfx, "evjson %s n:80000 n:170" % C.tb(mini_ev(t))))
         # nesting
         for depth in (1, 2, 10, 127, 128, 129, 130, 1000, 10000, 200000):
             for opener, closer in ((b"[", b"]"), (b'{"a":', b"}"), (b"[", b"")):
@@ -160,7 +170,7 @@ class Engine(BaseEngine):
         return out
 
     def skip_model(self, gcls):
-        return gcls == "many-values"
+        return gcls == "many-values" or gcls.endswith("-many")
 
     def judge(self, gcls, line, model_out, impl_outs):
         cmd = line.split(" ", 1)[0]
